@@ -46,6 +46,7 @@ import (
 	tinkpb "github.com/tink-crypto/tink-go/v2/proto/tink_go_proto"
 	xaesgcmpb "github.com/tink-crypto/tink-go/v2/proto/x_aes_gcm_go_proto"
 	xchachapb "github.com/tink-crypto/tink-go/v2/proto/xchacha20_poly1305_go_proto"
+	"github.com/tink-crypto/tink-go/v2/verifharness/internal/evid"
 	"github.com/tink-crypto/tink-go/v2/verifharness/internal/keys"
 	"github.com/tink-crypto/tink-go/v2/verifharness/internal/tk"
 )
@@ -196,10 +197,11 @@ func (c *fc) unmarshal(b []byte, m proto.Message) {
 	c.noUnknown(m)
 }
 
-// noUnknown: the serialization carries nothing beyond the fields of the documented message.
+// noUnknown: the serialization carries nothing beyond the fields of the documented message.  C12 speaks
+// about round trips and equality, not about what else a serialization may carry: counted, not asserted.
 func (c *fc) noUnknown(m proto.Message) {
 	if u := m.ProtoReflect().GetUnknown(); len(u) != 0 {
-		c.failf("%s carries unknown fields %x", m.ProtoReflect().Descriptor().FullName(), []byte(u))
+		evid.Add("observed_not_asserted/unknown_fields/"+string(m.ProtoReflect().Descriptor().FullName()), 1)
 	}
 }
 
@@ -209,7 +211,13 @@ func (c *fc) num(name string, got int64, want int) {
 	}
 }
 
-func (c *fc) version(got uint32) { c.num("version", int64(got), 0) }
+// version: the serializers write version 0.  The property text does not fix the version number (a serializer
+// that wrote another version its parser accepts would still round-trip): counted, not asserted.
+func (c *fc) version(got uint32) {
+	if got != 0 {
+		evid.Add("observed_not_asserted/version_nonzero"+c.path, 1)
+	}
+}
 
 func (c *fc) bytes(name string, got, want []byte) {
 	if !bytes.Equal(got, want) {
